@@ -150,7 +150,12 @@ def divform(e, var, K, region=None):
     if x[0] == "cast" and x[1] in ("sext", "zext"):
         x = x[4]
     if x != var:
-        return None
+        # nested constant adjustments, e.g. -1 + (1 - a): the numerator as an affine function of the dividend (same
+        # reading as above: wrap-around of the bias is the UB lines' subject, not this one's)
+        aff = iset.affine(e[3], var)
+        if aff is None or aff[0] not in (1, -1):
+            return None
+        return (s_out, aff[0], aff[1])
     # trunc(y / k) with y = s_in*a + c: normalise a negative numerator: trunc(y/k) = -floor(-y/k)
     return (s_out, s_in, c)
 
